@@ -31,6 +31,11 @@ func init() {
 			{ID: "C13.R4", Min: 17, Desc: "decode into temporaries", Fn: c13Temporaries},
 			{ID: "C13.R5", Min: 2, Desc: "progress in recursion", Fn: c13Recursion},
 			{ID: "C13.R7", Min: 3, Desc: "constant-index reads of strings and slices on the decode path are guarded by a length fact on the same value", Fn: c13ConstIndex},
+			{ID: "C13.R8", Min: 1, Desc: "no error of the codec layer is dropped implicitly (C12.R10)", Fn: func(p *Program, r *Report) {
+				p.checkNoImplicitDrop(r, "the codec (messages, envelope and cluster serialisers, registered readers/writers)", "an encoding error that is not propagated yields a truncated or empty frame that is sent as if it were complete; a decoding error that is not propagated hands on a half-filled message", func(rel string) bool {
+					return rel == "" || rel == "internal/messages" || rel == "internal/remoting/serialize" || rel == "internal/cluster"
+				})
+			}},
 			{ID: "C13.R6", Min: 4, Desc: "loops bounded by a wire integer consume input or are capped", Fn: c13Loops},
 		},
 	})
